@@ -166,12 +166,17 @@ class Param():
 
         self.all_updated = Caller()
         self.is_updated = False
+        # True once the values of all parameters have been requested (after
+        # the TOC is complete); value packets that arrive earlier must not
+        # be taken for the end of the value download
+        self._update_of_all_requested = False
         self._initialized = Event()
 
         self.values = {}
 
     def request_update_of_all_params(self):
         """Request an update of all the parameters in the TOC"""
+        self._update_of_all_requested = True
         for group in self.toc.toc:
             for name in self.toc.toc[group]:
                 complete_name = '%s.%s' % (group, name)
@@ -227,7 +232,8 @@ class Param():
 
             # Once all the parameters are updated call the
             # callback for "everything updated"
-            if self._check_if_all_updated() and not self.is_updated:
+            if self._update_of_all_requested and \
+                    self._check_if_all_updated() and not self.is_updated:
                 self.is_updated = True
                 self._initialized.set()
                 self.all_updated.call()
@@ -293,6 +299,7 @@ class Param():
     def _connection_requested(self, uri):
         # Reset the internal state on connect to make sure we have a clean state
         self.is_updated = False
+        self._update_of_all_requested = False
         self.toc = Toc()
         self.values = {}
         self._initialized.clear()
